@@ -925,6 +925,10 @@ class CxxPath:
             a2, b2 = a.replace(" ", "").strip("()"), b.replace(" ", "").strip("()")
             if op == "==" and ((a2 == var and b2 in ("0", "0U")) or (b2 == var and a2 in ("0", "0U"))):
                 return True
+            # unsigned: `x <= 0`, `x < 1`, `0 >= x`, `1 > x` all mean zero
+            if (a2 == var and ((op == "<=" and b2 in ("0", "0U")) or (op == "<" and b2 in ("1", "1U")))) or \
+               (b2 == var and ((op == ">=" and a2 in ("0", "0U")) or (op == ">" and a2 in ("1", "1U")))):
+                return True
             if op == "false" and a2 == var:
                 return True
         return False
@@ -940,6 +944,18 @@ def _balanced(s):
             if d < 0:
                 return False
     return d == 0
+
+
+def ret_bool(p):
+    """the boolean a path returns, when it is a literal or a condition whose value the path knows"""
+    r = (p.ret or "").strip()
+    if r in ("true", "false"):
+        return r == "true"
+    rx = p.expand(r).replace(" ", "")
+    for t, val in p.lits:
+        if t.replace(" ", "") == r.replace(" ", "") or p.expand(t).replace(" ", "") == rx:
+            return val
+    return None
 
 
 class CxxPaths:
@@ -1201,16 +1217,16 @@ def rule_blocks(out, tier):
             # after the refill: a count of zero ends the stream without reading an element
             later = CxxPath(p.lits[refill_at[1]:], [], p.outcome, p.env)
             if later.knows_zero(var):
-                if reads_elem or p.outcome != "return" or (p.ret or "").strip() != "false":
+                if reads_elem or p.outcome != "return" or ret_bool(p) is not False:
                     ok_end = False
         if reads_elem:
             decs = [t for kind, t, nl in p.events if kind == "step" and var in t]
             if decs not in ([var + "--"], ["--" + var], [var + "-=1"]):
                 ok_dec = False
-            if p.outcome == "return" and (p.ret or "").strip() != "true":
+            if p.outcome == "return" and ret_bool(p) is not True:
                 ok_dec = False
     # some path must exist on which a zero count is recognised
-    sees_zero = any(p.outcome == "return" and (p.ret or "").strip() == "false" for p in paths)
+    sees_zero = any(p.outcome == "return" and ret_bool(p) is False for p in paths)
     out.check(ok_refill and n_refill > 0, rid, "ReadBlock/refill only when empty", pos_rb, "a new block count is read only when current_block_remaining == 0", "ReadBlock does not refill the block count under `current_block_remaining == 0`")
     out.check(ok_end and sees_zero, rid, "ReadBlock/zero count ends the stream", pos_rb, "a block count of 0 returns false", "a zero block count is not treated as the end of the stream")
     out.check(ok_dec, rid, "ReadBlock/decrement by one", pos_rb, "one item per call", "current_block_remaining is not decremented by exactly one per item read")
